@@ -24,10 +24,17 @@ pub enum PEv {
     Retry(u32),
     Abandon(u32),
     Restart,
-    /// release the held add_appointment requests of a tower as if it answered in that mode
+    /// release the held add_appointment requests of a tower as if it answered in that mode (which it keeps)
     Release(u32, AddMode),
+    /// a revocation arrives while the tower refuses connections; before the retrier's next attempt the tower
+    /// is back but holds every request: the retrier is left running, blocked
+    HoldAfter(u32, u32),
     /// (auto-retry scenarios) wait until the tower is reachable with nothing pending, at most that many seconds
     AwaitDelivered(u32, u32),
+    /// (chaos scenarios) wait that many milliseconds, then SIGKILL the client and start it again at once
+    KillAfter(u32),
+    /// (chaos scenarios) just wait
+    Pause(u32),
 }
 
 fn add_tok(m: &AddMode) -> &'static str {
@@ -67,7 +74,10 @@ impl PEv {
             PEv::Abandon(t) => format!("pl abandon {t}"),
             PEv::Restart => "pl restart".into(),
             PEv::Release(t, m) => format!("pl release {t} {}", add_tok(m)),
+            PEv::HoldAfter(t, l) => format!("pl holdafter {t} {l}"),
             PEv::AwaitDelivered(t, s) => format!("pl await {t} {s}"),
+            PEv::KillAfter(ms) => format!("pl killafter {ms}"),
+            PEv::Pause(ms) => format!("pl pause {ms}"),
         }
     }
 }
@@ -226,7 +236,37 @@ pub fn run_scenario(sc: &Scenario, idx: usize) -> Vec<Rec> {
     let timed = sc.opts.1 < 100;
     out.push(Rec::Line(format!("{} new {} {} {} {}", if timed { "px" } else { "pl" }, sc.towers, sc.opts.0, sc.opts.1, sc.opts.2), if timed { "-".into() } else { "ok".into() }));
     let mut prev = w.view().unwrap_or_default();
+    // towers currently told to hold their answers
+    let mut holding: BTreeSet<u32> = BTreeSet::new();
     for ev in sc.events.iter() {
+        // a held tower must never be asked by the notification handler itself (the hook would block): holds are
+        // only set up on a tower shown reachable for a locator it has not answered, and a tower is not registered
+        // while it holds
+        let skip = match ev {
+            PEv::HoldAfter(t, l) => {
+                prev.towers.get(t).map_or(true, |tv| tv.status != "r")
+                    || prev.rows.rcpts.contains_key(&(*t, *l))
+                    || prev.rows.inval.contains(&(*t, *l))
+                    || !holding.is_empty()
+            }
+            PEv::Register(t) => holding.contains(t),
+            PEv::Add(t, _) | PEv::AddOnce(t, _) | PEv::Down(t, _) => holding.contains(t),
+            _ => false,
+        };
+        if skip {
+            out.push(Rec::Line("pl nop".into(), "ok".into()));
+            out.push(Rec::Count("ev:skipped".into()));
+            continue;
+        }
+        match ev {
+            PEv::HoldAfter(t, _) => {
+                holding.insert(*t);
+            }
+            PEv::Release(t, _) => {
+                holding.remove(t);
+            }
+            _ => {}
+        }
         out.push(Rec::Count(format!("ev:{}", ev.line().split(' ').nth(1).unwrap_or(""))));
         let reply: String = match ev {
             PEv::Register(t) => match w.register(*t) {
@@ -291,8 +331,41 @@ pub fn run_scenario(sc: &Scenario, idx: usize) -> Vec<Rec> {
                 "ok".into()
             }
             PEv::Release(t, m) => {
-                let n = w.towers[*t as usize].release(m.clone());
-                format!("released{}", if n > 0 { "" } else { "-none" })
+                w.set_add(*t, m.clone());
+                let _ = w.towers[*t as usize].release(m.clone());
+                "released".into()
+            }
+            PEv::HoldAfter(t, l) => {
+                for (x, tv) in prev.towers.iter() {
+                    if tv.status != "m" {
+                        g.due.insert((*x, *l));
+                    }
+                }
+                w.set_down(*t, true);
+                let r = match w.notify(*l, 8) {
+                    Ok(_) => "held".to_string(),
+                    Err(e) => err_class(&e),
+                };
+                // back, but silent
+                w.set_add(*t, AddMode::Hold);
+                w.set_down(*t, false);
+                let t0 = Instant::now();
+                while w.towers[*t as usize].st.lock().unwrap().held.is_empty() && t0.elapsed() < Duration::from_millis(2500) {
+                    std::thread::sleep(Duration::from_millis(20));
+                }
+                if w.towers[*t as usize].st.lock().unwrap().held.is_empty() {
+                    out.push(Rec::Count("note:hold-missed".into()));
+                }
+                r
+            }
+            PEv::KillAfter(ms) => {
+                std::thread::sleep(Duration::from_millis(*ms as u64));
+                w.restart();
+                "ok".into()
+            }
+            PEv::Pause(ms) => {
+                std::thread::sleep(Duration::from_millis(*ms as u64));
+                "ok".into()
             }
             PEv::AwaitDelivered(t, secs) => {
                 let t0 = Instant::now();
@@ -369,6 +442,139 @@ pub fn run_scenario(sc: &Scenario, idx: usize) -> Vec<Rec> {
     out
 }
 
+
+/// Chaos: events fired without waiting for the client to settle, kills at random instants (also in the
+/// middle of a retrier's work), then the towers heal, the client is restarted and every tower retried.
+/// Monitors only (the state in between depends on timing): nothing acknowledged may be lost, nothing may be
+/// recorded twice once things have settled, everything must end up delivered, the client must stay alive.
+pub fn run_chaos(sc: &Scenario, idx: usize) -> Vec<Rec> {
+    let mut out = vec![];
+    let mut w = PWorld::new(&format!("{}-{idx}", sc.name), sc.towers, 21000 + (idx as u16 % 400) * 40, sc.opts);
+    let mut due: BTreeSet<(u32, u32)> = BTreeSet::new();
+    out.push(Rec::Line(format!("px new {} chaos", sc.towers), "-".into()));
+    for ev in sc.events.iter() {
+        out.push(Rec::Count(format!("chaos-ev:{}", ev.line().split(' ').nth(1).unwrap_or(""))));
+        out.push(Rec::Line(ev.line().replacen("pl ", "px ", 1), "-".into()));
+        match ev {
+            PEv::Register(t) => {
+                let _ = w.register(*t);
+            }
+            PEv::Notify(l) => {
+                // who is listed (and not flagged) right now?
+                let listed: Vec<u32> = w.view().map(|v| v.towers.iter().filter(|(_, tv)| tv.status != "m").map(|(t, _)| *t).collect()).unwrap_or_default();
+                match w.notify(*l, 10) {
+                    Ok(_) => {
+                        for t in listed {
+                            due.insert((t, *l));
+                        }
+                    }
+                    Err(e) => out.push(Rec::Fail("C14", "no_answer:notify".into(), format!("chaos: `{}` got no answer ({})", ev.line(), err_class(&e)))),
+                }
+            }
+            PEv::Add(t, m) => w.set_add(*t, m.clone()),
+            PEv::AddOnce(t, m) => w.towers[*t as usize].st.lock().unwrap().once = vec![m.clone()],
+            PEv::Reg(t, m) => w.set_reg(*t, m.clone()),
+            PEv::Down(t, d) => w.set_down(*t, *d),
+            PEv::Retry(t) => {
+                let _ = w.retry(*t);
+            }
+            PEv::Abandon(t) => {
+                if w.abandon(*t).is_ok() {
+                    due.retain(|d| d.0 != *t);
+                }
+            }
+            PEv::Restart => w.restart(),
+            PEv::KillAfter(ms) => {
+                std::thread::sleep(Duration::from_millis(*ms as u64));
+                w.restart();
+            }
+            PEv::Pause(ms) => std::thread::sleep(Duration::from_millis(*ms as u64)),
+            _ => {}
+        }
+        if !w.plugin.alive() {
+            out.push(Rec::Fail("C14", "plugin_died".into(), format!("chaos: the plugin process is gone after `{}`", ev.line())));
+            return out;
+        }
+        // at no time may an acknowledged appointment be missing from the file
+        let rows = if w.db_path().exists() { crate::client::Rows::read_lenient(&w.db_path()) } else { Default::default() };
+        let flagged: BTreeSet<u32> = rows.proofs.keys().cloned().collect();
+        for (t, l) in due.iter() {
+            if flagged.contains(t) || !rows.towers.contains_key(t) {
+                continue;
+            }
+            if !rows.rcpts.contains_key(&(*t, *l)) && !rows.pend.contains(&(*t, *l)) && !rows.inval.contains(&(*t, *l)) {
+                out.push(Rec::Fail("C05", "appointment_lost".into(), format!("chaos: after `{}` locator {l} is neither accepted, pending nor invalid for tower {t} although its notification had been acknowledged", ev.line())));
+            }
+        }
+    }
+    // heal, restart, let everything be delivered
+    for t in 0..sc.towers {
+        w.set_down(t, false);
+        w.set_add(t, AddMode::Accept);
+        w.set_reg(t, RegMode::Accept);
+        w.towers[t as usize].st.lock().unwrap().once.clear();
+    }
+    w.restart();
+    let _ = settle(&mut w);
+    for t in 0..sc.towers {
+        let _ = w.retry(t);
+    }
+    let Some(view) = settle(&mut w) else {
+        out.push(Rec::Fail("C13", "never_stable".into(), "chaos: the client does not settle after all towers healed".into()));
+        return out;
+    };
+    out.push(Rec::Line("px final".into(), "-".into()));
+    for (t, l) in due.iter() {
+        let Some(tv) = view.towers.get(t) else { continue };
+        if tv.status == "m" {
+            continue;
+        }
+        let acc = view.rows.rcpts.contains_key(&(*t, *l));
+        let pen = view.rows.pend.contains(&(*t, *l));
+        let inv = view.rows.inval.contains(&(*t, *l));
+        let n = acc as u32 + pen as u32 + inv as u32;
+        if n == 0 {
+            out.push(Rec::Fail("C05", "appointment_lost".into(), format!("chaos: at the end locator {l} is not recorded for tower {t}: {}", view.line())));
+        } else if n > 1 {
+            out.push(Rec::Fail("C05", "recorded_twice:chaos".into(), format!("chaos: at the end locator {l} / tower {t} is recorded {n} times: {}", view.line())));
+        }
+        if pen {
+            out.push(Rec::Fail("C13", "not_delivered_after_recovery".into(), format!("chaos: every tower answers correctly, the client was restarted and retried, but locator {l} is still pending for tower {t}: {}", view.line())));
+        }
+    }
+    for (t, tv) in view.towers.iter() {
+        if tv.status != "r" && tv.status != "m" {
+            out.push(Rec::Fail("C13", "not_reachable_after_recovery".into(), format!("chaos: tower {t} answers correctly and was retried but is shown `{}`", tv.status)));
+        }
+    }
+    out.push(Rec::Count(format!("chaos-due:{}", due.len().min(20))));
+    out
+}
+
+fn chaos_scenario(rng: &mut Rng, i: usize) -> Scenario {
+    use PEv::*;
+    let towers = 1 + rng.below(2) as u32;
+    let mut ev = vec![];
+    for t in 0..towers {
+        ev.push(Register(t));
+    }
+    let modes = [AddMode::Accept, AddMode::Accept, AddMode::SubErr, AddMode::Reject, AddMode::NonJson, AddMode::MalformedSig];
+    for _ in 0..(8 + rng.below(8)) {
+        let t = rng.below(towers as u64) as u32;
+        match rng.weighted(&[34, 10, 8, 8, 6, 14, 10, 4]) {
+            0 => ev.push(Notify(rng.below(6) as u32)),
+            1 => ev.push(Add(t, rng.pick(&modes).clone())),
+            2 => ev.push(Down(t, true)),
+            3 => ev.push(Down(t, false)),
+            4 => ev.push(Retry(t)),
+            5 => ev.push(KillAfter(rng.below(1500) as u32)),
+            6 => ev.push(Pause(rng.below(1200) as u32)),
+            _ => ev.push(AddOnce(t, AddMode::NonJson)),
+        }
+    }
+    Scenario { name: format!("chaos-{i}"), towers, opts: (2, 1000, 1), events: ev }
+}
+
 pub fn corpus() -> Vec<Scenario> {
     use AddMode::*;
     use PEv::*;
@@ -390,6 +596,12 @@ pub fn corpus() -> Vec<Scenario> {
         sc("recovery-between-two-attempts", vec![Register(0), Down(0, true), Notify(0), Notify(1), Notify(2), Down(0, false), AddOnce(0, NonJson), Retry(0), Notify(3)]),
         sc("one-bad-reply-on-notification", vec![Register(0), Register(1), AddOnce(0, WrongShape), Notify(0), AddOnce(1, SubErr), Notify(1), Notify(2)]),
         sc("abandon-and-return-with-idle-retrier", vec![Register(0), Down(0, true), Notify(0), Abandon(0), Down(0, false), Register(0), Notify(1), Down(0, true), Notify(2), Down(0, false), Notify(3), Retry(0)]),
+        sc("revocations-while-the-retrier-runs", vec![Register(0), Register(1), HoldAfter(0, 0), Notify(1), Notify(2), Retry(0), Release(0, Accept), Notify(3)]),
+        sc("kill-while-the-retrier-runs", vec![Register(0), HoldAfter(0, 0), Notify(1), Restart, Notify(2), Release(0, Accept)]),
+        sc("abandon-while-the-retrier-runs", vec![Register(0), Register(1), HoldAfter(0, 0), Notify(1), Abandon(0), Release(0, Accept), Notify(2), Register(0), Notify(3)]),
+        sc("rejection-after-a-long-wait", vec![Register(0), HoldAfter(0, 0), Notify(1), Release(0, Reject), Notify(2), Restart]),
+        sc("garbage-after-a-long-wait", vec![Register(0), HoldAfter(0, 0), Notify(1), Release(0, NonJson), Add(0, Accept), Retry(0)]),
+        sc("wrong-signer-after-a-long-wait", vec![Register(0), Register(1), HoldAfter(0, 0), Notify(1), Release(0, BadSig), Notify(2)]),
         sc("kill-with-pending", vec![Register(0), Register(1), Down(0, true), Notify(0), Notify(1), Restart, Down(0, false), Restart, Notify(2)]),
         sc("register-replies", vec![PEv::Reg(0, RegMode::BadSig), Register(0), PEv::Reg(0, RegMode::NonJson), Register(0), PEv::Reg(0, RegMode::ApiError), Register(0), PEv::Reg(0, RegMode::Accept), Register(0), PEv::Reg(0, RegMode::Same), Register(0), PEv::Reg(0, RegMode::SameExpiry), Register(0), Down(0, true), Register(0), Notify(0)]),
         Scenario { name: "auto-retry-delivers".into(), towers: 1, opts: (2, 3, 1), events: vec![Register(0), Down(0, true), Notify(0), Notify(1), Down(0, false), AwaitDelivered(0, 14)] },
@@ -417,6 +629,18 @@ fn random_scenario(rng: &mut Rng, i: usize) -> Scenario {
             3 => ev.push(Down(t, true)),
             4 => ev.push(Down(t, false)),
             5 => ev.push(Retry(t)),
+            6 if rng.chance(1, 2) => {
+                // a retrier left running on a silent tower, things happening meanwhile, then the answer
+                ev.push(HoldAfter(t, 4 + rng.below(3) as u32));
+                for _ in 0..rng.below(3) {
+                    match rng.below(4) {
+                        0 => ev.push(Retry(t)),
+                        1 => ev.push(Restart),
+                        _ => ev.push(Notify(rng.below(4) as u32)),
+                    }
+                }
+                ev.push(Release(t, rng.pick(&[AddMode::Accept, AddMode::Accept, AddMode::Reject, AddMode::NonJson, AddMode::BadSig]).clone()));
+            }
             6 => ev.push(Abandon(t)),
             7 => ev.push(Restart),
             _ => ev.push(Register(t)),
@@ -431,6 +655,10 @@ pub fn run(seed: u64, thorough: bool, rep: &mut Report) {
     let n_random = if thorough { 120 } else { 16 };
     for i in 0..n_random {
         scenarios.push(random_scenario(&mut rng, i));
+    }
+    let n_chaos = if thorough { 60 } else { 10 };
+    for i in 0..n_chaos {
+        scenarios.push(chaos_scenario(&mut rng, i));
     }
     let only = std::env::var("VERIF_SCENARIO").ok();
     if let Some(o) = &only {
@@ -454,7 +682,7 @@ pub fn run(seed: u64, thorough: bool, rep: &mut Report) {
             if i >= scenarios.len() {
                 break;
             }
-            let r = run_scenario(&scenarios[i], i);
+            let r = if scenarios[i].name.starts_with("chaos-") { run_chaos(&scenarios[i], i) } else { run_scenario(&scenarios[i], i) };
             results.lock().unwrap().insert(i, r);
         }));
     }
